@@ -290,6 +290,8 @@ instance (s : State) : Decidable (AllIdle s) := by unfold AllIdle; exact inferIn
 def NoLibraryThread (s : State) : Prop :=
   s.em = .done ∧ s.queue = [] ∧ s.pending = 0
 
+instance (s : State) : Decidable (NoLibraryThread s) := by unfold NoLibraryThread; exact inferInstance
+
 /-! ### the sequential writer (what a writer without goroutines would deliver) -/
 
 /-- number of blocks the script submits when no fault occurs (`closed` = Close already called) -/
